@@ -101,7 +101,7 @@ theorem parse_be32 (n : Nat) (h : n ≤ maxChunkSize) : parseSetChunkSize (be32 
     when the packet is droppable and is not delivered -/
 theorem step_reads (s : Ser.State) (sp : Spec.Chunk.State) (hSR : SR s sp) (op : SerOp) (hwf : OpWF s op)
     (s' : Ser.State) (p : Ser.Packet) (h : applyOp s op = .ok (s', p)) :
-    (∃ sp', SR s' sp' ∧ ∀ tail ms, Reads sp' none tail ms → Reads sp none (p.bytes ++ tail) (msgOf op :: ms)) ∧
+    (∃ sp', SR s' sp' ∧ ∀ tail ms sE cE, Reads sp' none tail ms sE cE → Reads sp none (p.bytes ++ tail) (msgOf op :: ms) sE cE) ∧
     (p.drop = true → SR s' sp) := by
   cases op with
   | msg m force drop =>
@@ -157,15 +157,21 @@ theorem trace_ok {s s' : Ser.State} {op : SerOp} {p : Ser.Packet} {rest : List S
     (h : applyOp s op = .ok (s', p)) : trace s (op :: rest) = (p, msgOf op) :: trace s' rest ∧ after s op = s' := by
   simp [trace, after, h]
 
+/-- state after a whole history -/
+def runAll (s : Ser.State) : List SerOp → Ser.State
+  | [] => s
+  | op :: rest => runAll (after s op) rest
+
 /-- **Thm A.**  For every well-typed history run from related states and every choice of droppable
     packets to omit, the remaining bytes are read by the specification reader as exactly the
-    messages of the remaining packets. -/
+    messages of the remaining packets — and the reader ends in a state related to the serializer's. -/
 theorem hist_reads : ∀ (ops : List SerOp) (s : Ser.State) (sp : Spec.Chunk.State) (mask : List Bool),
     SR s sp → HistWF s ops →
-    Reads sp none (wire (keepSel mask (trace s ops))) (msgs (keepSel mask (trace s ops))) := by
+    ∃ sE, Reads sp none (wire (keepSel mask (trace s ops))) (msgs (keepSel mask (trace s ops))) sE none ∧
+      SR (runAll s ops) sE := by
   intro ops
   induction ops with
-  | nil => intro s sp mask _ _; exact Reads.nil _ _
+  | nil => intro s sp mask hSR _; exact ⟨sp, Reads.nil _ _, hSR⟩
   | cons op rest ih =>
     intro s sp mask hSR hwf
     obtain ⟨hop, hrest⟩ := hwf
@@ -173,16 +179,21 @@ theorem hist_reads : ∀ (ops : List SerOp) (s : Ser.State) (sp : Spec.Chunk.Sta
     | err e =>
       have h1 : trace s (op :: rest) = trace s rest := by simp [trace, after, happ]
       have h2 : after s op = s := by simp [after, happ]
-      rw [h1]; rw [h2] at hrest; exact ih s sp mask hSR hrest
+      rw [h1]; rw [h2] at hrest
+      have := ih s sp mask hSR hrest
+      simp only [runAll, h2]; exact this
     | hang =>
       have h1 : trace s (op :: rest) = trace s rest := by simp [trace, after, happ]
       have h2 : after s op = s := by simp [after, happ]
-      rw [h1]; rw [h2] at hrest; exact ih s sp mask hSR hrest
+      rw [h1]; rw [h2] at hrest
+      have := ih s sp mask hSR hrest
+      simp only [runAll, h2]; exact this
     | ok r =>
       obtain ⟨s', p⟩ := r
       obtain ⟨h1, h2⟩ := trace_ok (rest := rest) happ
       rw [h1]; rw [h2] at hrest
       obtain ⟨⟨sp', hSR', hrd⟩, hskip⟩ := step_reads s sp hSR op hop s' p happ
+      simp only [runAll, h2]
       unfold keepSel
       by_cases hdrop : (p.drop && !(mask.headD true)) = true
       · simp only [hdrop, if_true]
@@ -191,8 +202,10 @@ theorem hist_reads : ∀ (ops : List SerOp) (s : Ser.State) (sp : Spec.Chunk.Sta
           | true => rfl
           | false => rw [hp] at hdrop; simp at hdrop
         exact ih s' sp mask.tail (hskip hd) hrest
-      · simp only [hdrop, if_false]
-        have := hrd _ _ (ih s' sp' mask.tail hSR' hrest)
+      · simp only [hdrop]
+        obtain ⟨sE, hr, hsr⟩ := ih s' sp' mask.tail hSR' hrest
+        refine ⟨sE, ?_, hsr⟩
+        have := hrd _ _ _ _ hr
         simpa [wire, msgs] using this
 
 end Rml.SerHist
